@@ -20,6 +20,7 @@ import CSD.Lemmas.PFCMeta
 import CSD.Lemmas.RPDACImage
 import CSD.Lemmas.RPFCImage
 import CSD.Lemmas.HRPDACImage
+import CSD.Lemmas.BlocksImage
 
 namespace CSD.Props.C06
 open CSD.Generated
@@ -144,5 +145,11 @@ DAC sequences, and the hash table header of `HashDAC::save` (`tsize`, `n`, the o
 BitSequenceRG image). -/
 theorem hashrpdac_image_reloads (d : HRPDACImg.Img) (wf : HRPDACImg.WF d) (rest : List UInt8) :
     HRPDACImg.load (HRPDACImg.save d ++ rest) = some (d, rest) := HRPDACImg.load_save d wf rest
+
+
+/-- `StringDictionaryHASHRPDACBlocks::load (save d ++ rest) = (d, rest)` on bytes: header, the first string and
+the starting ID of every part, and every part as a whole HASHRPDAC image (by induction over the parts). -/
+theorem blocks_image_reloads (d : BlocksImg.Img) (wf : BlocksImg.WF d) (rest : List UInt8) :
+    BlocksImg.load (BlocksImg.save d ++ rest) = some (d, rest) := BlocksImg.load_save d wf rest
 
 end CSD.Props.C06
